@@ -69,9 +69,13 @@ int Futex::wake_all() noexcept {
   }
   // Resume when remove nodes and get their ownership successfully.
   int waked = 0;
-  for (auto node = head; node != nullptr; node = node->next) {
+  for (auto node = head; node != nullptr;) {
+    // Read next before finish_released. The slot is recycled there, and a new
+    // waiter may reuse and overwrite this node right away
+    auto next_node = node->next;
     node->promise->resume(node->handle);
     box.finish_released(node->id);
+    node = next_node;
     waked++;
   }
   return waked;
